@@ -188,6 +188,32 @@ int main(int argc, char **argv)
   if (cmd == "run" && argc >= 8)
     return cmd_run(argv[2], std::strtoull(argv[3], nullptr, 10), std::strtoull(argv[4], nullptr, 10), std::strtoull(argv[5], nullptr, 10),
                    argv[6], argv[7], argc >= 9 ? std::strtoull(argv[8], nullptr, 10) : 50);
+  if (cmd == "dump" && argc >= 4)
+    {
+      // debugging aid: execute a scenario and write what the tools wrote (and printed) to a real directory
+      Scenario s;
+      std::string err;
+      if (!scenario_from_json(read_file(argv[2]), s, err))
+        return 3;
+      RunResult r = execute(s);
+      int k = 0;
+      for (const auto &x : r.resp)
+        {
+          for (const auto &f : x.written)
+            {
+              std::string name = f.first;
+              for (auto &c : name)
+                if (c == '/')
+                  c = '_';
+              write_file(std::string(argv[3]) + "/op" + std::to_string(k) + "_" + name, f.second);
+            }
+          if (!x.out.empty())
+            write_file(std::string(argv[3]) + "/op" + std::to_string(k) + "_stdout.txt", x.out);
+          ++k;
+        }
+      std::printf("%s\n", result_to_json(r, false).c_str());
+      return 0;
+    }
   if (cmd == "corpus-check")
     {
       for (const auto &w : corpus())
